@@ -1353,6 +1353,60 @@ def o_polyval(mir, tier, seed):
     return dict(theory='structural (every configuration run concretely: no symbolic branch); elementary checks and relate uninterpreted', functions=['Validation for Polygon: visit_validation'], paths=npaths, status=st, info=info, model=None, replay=('polygon_validation', ''))
 
 
+# ---- C12: the fold that combines the members' closest points
+
+@obligation('C12', 'closest_of_fold_real', 'closest_of over 0-3 members whose own answers are arbitrary (Intersection / SinglePoint / Indeterminate at arbitrary points, distances to the query arbitrary non-negative reals): the FIRST Intersection if there is one; otherwise Indeterminate exactly when no member gave a SinglePoint (in particular for no member at all); otherwise a SinglePoint of minimal distance (the last one among ties) - an Indeterminate member never ends the search or displaces a better answer (each path re-executed from scratch)')
+def o_closest_of(mir, tier, seed):
+    from mir2smt import SliceIter
+    T = RealTheory()
+    fn = mir.find('geo', r'closest_of')
+    extra = dict(EXTRA)
+    extra[r'Closest::<\w+>::best_of_two'] = ('geo', r'types::<impl at [^>]*>::best_of_two')
+    bad, npaths = [], 0
+    for n in (0, 1, 2, 3):
+        kind = [z3.Int('kind_%d_%d' % (n, i)) for i in range(n)]
+        pts = [coord(T, 'cp_%d_%d_' % (n, i)) for i in range(n)]
+        dist = [T.var('cd_%d_%d' % (n, i)) for i in range(n)]
+        dom = [z3.And(k >= 0, k <= 2) for k in kind] + [d >= 0 for d in dist]
+
+        def cp(ip, d, kind=kind, pts=pts):
+            i = deref(d[0])[1]
+            return ('fork', [(kind[i] == 0, Enum('Intersection', [[list(pts[i])]])), (kind[i] == 1, Enum('SinglePoint', [[list(pts[i])]])), (kind[i] == 2, Enum('Indeterminate'))])
+
+        def distance(ip, d, pts=pts, dist=dist):
+            c_ = deref(deref(d[1])[0])
+            for i, p_ in enumerate(pts):
+                if c_[0].eq(p_[0]) and c_[1].eq(p_[1]):
+                    return dist[i]
+            raise Untranslatable('distance of an unknown point')
+        uf = {'re:<I as IntoIterator>::into_iter': lambda ip, d: d[0], 're:<C as (algorithm::)?closest_point::ClosestPoint<F>>::closest_point': cp,
+              're:<euclidean::Euclidean as (algorithm::)?line_measures::distance::Distance<F, geo_types::Point<F>, geo_types::Point<F>>>::distance': distance}
+        ip = Interp(mir, T, extra, uf)
+        res = ip.explore(fn, lambda n=n: [SliceIter([('member', i) for i in range(n)]), [[T.var('query_x'), T.var('query_y')]]])
+        npaths += len(res)
+        c = z3.And(dom) if dom else z3.BoolVal(True)
+        bad.append(z3.And(c, z3.Not(z3.Or([pc for pc, _, _ in res]))))
+        any_int = z3.Or([k == 0 for k in kind]) if kind else z3.BoolVal(False)
+        any_sp = z3.Or([k == 1 for k in kind]) if kind else z3.BoolVal(False)
+        same = lambda a_, b_: z3.And(a_[0] == b_[0], a_[1] == b_[1])
+        for pc, r, _ in res:
+            r = deref(r)
+            if variant_is(r, 'Indeterminate'):
+                ok = z3.And(z3.Not(any_int), z3.Not(any_sp))
+            elif variant_is(r, 'Intersection'):
+                got = deref(deref(r.fields[0])[0])
+                ok = z3.Or([z3.And(kind[i] == 0, z3.And([kind[j] != 0 for j in range(i)] + [z3.BoolVal(True)]), same(got, pts[i])) for i in range(n)] + [z3.BoolVal(False)])
+            elif variant_is(r, 'SinglePoint'):
+                got = deref(deref(r.fields[0])[0])
+                ok = z3.And(z3.Not(any_int), z3.Or([z3.And(kind[i] == 1, same(got, pts[i]),
+                                                        z3.And([z3.Implies(kind[j] == 1, dist[i] < dist[j] if j > i else dist[i] <= dist[j]) for j in range(n) if j != i] + [z3.BoolVal(True)])) for i in range(n)] + [z3.BoolVal(False)]))
+            else:
+                ok = z3.BoolVal(False)
+            bad.append(z3.And(c, pc, z3.Not(ok)))
+    st, info, model = check_unsat('closest_of_fold_real', [z3.Or(bad)])
+    return dict(theory='Real + Int (answer kinds as 0/1/2); the members\' closest_point and the point distances uninterpreted', functions=['closest_point::closest_of', 'Closest::best_of_two'], paths=npaths, status=st, info=info, model=None, replay=('closest_of', ''))
+
+
 # ---- C12: the scan line polygon interior_point intersects with the polygon
 
 @obligation('C12', 'interior_point_scan_line_avoids_vertices', 'polygon_interior_point_with_segment_length up to the construction of its scan line, for polygons of 3-4 (thorough: 5) coordinates with ANY real coordinates (bounding_rect = the exact bounding box): the scan line is horizontal, spans the bounding box in x, lies within it in y, and - unless every vertex has the same y (a flat polygon) - passes through NO vertex (the sweep and relate that follow are cut)')
@@ -1518,6 +1572,60 @@ def o_dispatch2(mir, tier, seed):
     npaths += finish(tag, outs, z3.If(I(inter, tag), T.const(0), dist(None, [a_, b_])), vals, ip)
     st, info, model = check_unsat('distance_dispatch_points_lines_polygons', assume + [z3.Or(bad)])
     return dict(theory='Real + Bool; geometry parts opaque; nested distances symmetric uninterpreted values', functions=['Distance<F,&Point,&Polygon>', 'Distance<F,&Line,&Line>', 'Distance<F,&Line,&LineString>', 'Distance<F,&Line,&Polygon>', 'Distance<F,&LineString,&LineString>', 'Distance<F,&LineString,&Polygon> for Euclidean'], paths=npaths, status=st, info=info, model=None, replay=('polygon_distance', ''))
+
+
+@obligation('C02', 'contains_point_glue', 'the non-relate Contains impls of areal types, with coordinate_position uninterpreted (three-valued): Polygon.contains(Coord) exactly when the position is Inside; MultiPolygon.contains(Coord) exactly when some member contains it (0-3 members); MultiPolygon.contains(MultiPoint) (0-3 points) is false when either side is empty or a point is Outside, and otherwise true exactly when at least one point is Inside (boundary points allowed) - the DE-9IM mask T*****FF*')
+def o_contains_glue(mir, tier, seed):
+    from mir2smt import SliceIter
+    CN = r'contains::polygon::<impl at [^>]*>::contains'
+    T = IntTheory()
+    bad, npaths = [], 0
+    pos_enum = lambda v: ('fork', [(v == 0, Enum('Outside')), (v == 1, Enum('OnBoundary')), (v == 2, Enum('Inside'))])
+    # Polygon contains Coord
+    v = z3.Int('pos_poly')
+    ip = Interp(mir, T, EXTRA, {'re:<geo_types::Polygon<T> as (algorithm::)?coordinate_position::CoordinatePosition>::coordinate_position': lambda ip, d: pos_enum(v)})
+    outs = ip.call_fn(mir.find('geo', CN, sig=r'_1: &geo_types::Polygon<T>, _2: &geo_types::Coord<T>'), [Ref(lambda: ('polygon',)), Ref(lambda: ('query',))], z3.BoolVal(True))
+    npaths += len(outs)
+    dom = z3.And(v >= 0, v <= 2)
+    bad.append(z3.And(dom, z3.Not(z3.Or([pc for pc, _ in outs]))))
+    for pc, r in outs:
+        r = deref(r)
+        bad.append(z3.And(dom, pc, (z3.BoolVal(r) if isinstance(r, bool) else r) != (v == 2)))
+    # MultiPolygon contains Coord
+    for nm in (0, 1, 2, 3):
+        cs = [z3.Bool('member_contains_%d_%d' % (nm, i)) for i in range(nm)]
+        uf = {'re:<geo_types::Polygon<T> as (algorithm::)?contains::Contains<geo_types::Coord<T>>>::contains': lambda ip, d, cs=cs: cs[deref(d[0])[1]]}
+        ip = Interp(mir, T, EXTRA, uf)
+        mpoly = [[('member', i) for i in range(nm)]]
+        outs = ip.call_fn(mir.find('geo', CN, sig=r'_1: &geo_types::MultiPolygon<T>, _2: &geo_types::Coord<T>'), [Ref(lambda mpoly=mpoly: mpoly), Ref(lambda: ('query',))], z3.BoolVal(True))
+        npaths += len(outs)
+        want = z3.Or(cs) if cs else z3.BoolVal(False)
+        bad.append(z3.Not(z3.Or([pc for pc, _ in outs])))
+        for pc, r in outs:
+            r = deref(r)
+            bad.append(z3.And(pc, (z3.BoolVal(r) if isinstance(r, bool) else r) != want))
+    # MultiPolygon contains MultiPoint
+    fn = mir.find('geo', CN, sig=r'_1: &geo_types::MultiPolygon<T>, _2: &geo_types::MultiPoint<T>')
+    for np_ in (0, 1, 2, 3):
+        for mp_empty in (False, True):
+            pv = [z3.Int('pt_pos_%d_%d' % (np_, i)) for i in range(np_)]
+            dom = z3.And([z3.And(x >= 0, x <= 2) for x in pv]) if pv else z3.BoolVal(True)
+            uf = {'re:<geo_types::MultiPolygon<T> as (algorithm::)?dimensions::HasDimensions>::is_empty': lambda ip, d, e=mp_empty: e,
+                  're:geo_types::MultiPoint::<\\w+>::is_empty': lambda ip, d, np_=np_: np_ == 0,
+                  're:<geo_types::MultiPolygon<T> as (algorithm::)?coordinate_position::CoordinatePosition>::coordinate_position': lambda ip, d, pv=pv: pos_enum(pv[deref(d[1])[1]])}
+            ip = Interp(mir, T, EXTRA, uf)
+            res = ip.explore(fn, lambda np_=np_: [Ref(lambda: ('mp',)), Ref(lambda: [[[('pt', i)] for i in range(np_)]])])
+            npaths += len(res)
+            if mp_empty or np_ == 0:
+                want = z3.BoolVal(False)
+            else:
+                want = z3.And(z3.And([x != 0 for x in pv]), z3.Or([x == 2 for x in pv]))
+            bad.append(z3.And(dom, z3.Not(z3.Or([pc for pc, _, _ in res]))))
+            for pc, r, _ in res:
+                r = deref(r)
+                bad.append(z3.And(dom, pc, (z3.BoolVal(r) if isinstance(r, bool) else r) != want))
+    st, info, model = check_unsat('contains_point_glue', [z3.Or(bad)])
+    return dict(theory='Int (positions as 0/1/2) + Bool; coordinate_position and the members\' own contains uninterpreted', functions=['Contains<Coord> for Polygon', 'Contains<Coord> for MultiPolygon', 'Contains<MultiPoint> for MultiPolygon'], paths=npaths, status=st, info=info, model=None, replay=('position_assembly', ''))
 
 
 # ---- C02: how coordinate_position is assembled from ring / member positions
